@@ -71,6 +71,7 @@ func init() {
 		"(reflect.Value).Call":            ext۰reflect۰Value۰Call,
 		"(reflect.Value).Convert":         ext۰reflect۰Value۰Convert,
 		"(reflect.Value).Recv":            ext۰reflect۰Value۰Recv,
+		"(reflect.Value).TryRecv":         ext۰reflect۰Value۰TryRecv,
 		"(reflect.Value).Pointer":         ext۰reflect۰Value۰Pointer,
 		"(reflect.Value).Set":             ext۰reflect۰Value۰Set,
 		"(reflect.Value).String":          ext۰reflect۰Value۰String,
@@ -454,7 +455,10 @@ func ext۰sync۰Lock(fr *frame, a []value) value {
 	if i.race != nil {
 		i.schedPoint()
 		for i.locks[p] != 0 {
+			// a writer that waits keeps new readers out (sync.RWMutex): see RLock
+			i.race.wpending[p]++
 			i.waitOn(p)
+			i.race.wpending[p]--
 		}
 		i.locks[p] = -1
 		i.raceAcquire(p)
@@ -489,7 +493,7 @@ func ext۰sync۰RLock(fr *frame, a []value) value {
 	p := a[0].(*value)
 	if i := fr.i; i.race != nil {
 		i.schedPoint()
-		for i.locks[p] < 0 {
+		for i.locks[p] < 0 || i.race.wpending[p] > 0 {
 			i.waitOn(p)
 		}
 		i.locks[p]++
